@@ -5,7 +5,7 @@
 From Coq Require Import List NArith ZArith Bool Lia.
 Import ListNotations.
 From LV Require Import Model.Base Model.Template Model.Eval Model.Derived Model.EvalRun Proofs.BaseProofs Proofs.EvalProofs Proofs.EvalInd Proofs.EvalUnfold.
-From LV Require Import Proofs.FrameProofs Proofs.FrameTheorem Proofs.RestrictProofs.
+From LV Require Import Proofs.FrameProofs Proofs.TemplateFrame Proofs.FrameTheorem Proofs.RestrictProofs.
 
 Section Sufficient.
   Variable u : N -> list value -> cres.
@@ -46,35 +46,35 @@ Section Sufficient.
 
   (** ** C03: keys() is sufficient *)
   Theorem keys_sufficient e o K lk rv lv :
-    frag e = true -> wf_dict o = true ->
+    frag e = true -> wf_dict o = true -> no_par o = true ->
     keysN e o tt = (Ok K, tt, lk) -> evalN e o tt = (rv, tt, lv) ->
     good_keys K -> RR K o lv -> RR K o lk ->
     effects_opt_off (restrict o K) = effects_opt_off o ->
     obs (evalN e (restrict o K) tt) = obs (evalN e o tt) /\
     obs (keysN e (restrict o K) tt) = obs (keysN e o tt).
   Proof.
-    intros Hf Hw Hk He Hg Hrv Hrk Hsw.
-    destruct (frame_all u fuel e Hf o (restrict o K) Hw (wf_restrict o K Hw) Hsw) as (E & _ & Kf).
+    intros Hf Hw Hnp Hk He Hg Hrv Hrk Hsw.
+    destruct (frame_all u fuel e Hf o (restrict o K) Hw (wf_restrict o K Hw) Hnp (no_par_restrict o K Hnp) Hsw) as (E & _ & Kf).
     split.
     - apply E. rewrite He. cbn [snd]. now apply agree_restrict.
     - apply Kf. rewrite Hk. cbn [snd]. now apply agree_restrict.
   Qed.
 
   Theorem validate_sufficient e o K lk rv lv :
-    frag e = true -> wf_dict o = true ->
+    frag e = true -> wf_dict o = true -> no_par o = true ->
     keysN e o tt = (Ok K, tt, lk) -> validateN e o tt = (rv, tt, lv) ->
     good_keys K -> RR K o lv ->
     effects_opt_off (restrict o K) = effects_opt_off o ->
     obs (validateN e (restrict o K) tt) = obs (validateN e o tt).
   Proof.
-    intros Hf Hw Hk He Hg Hrv Hsw.
-    destruct (frame_all u fuel e Hf o (restrict o K) Hw (wf_restrict o K Hw) Hsw) as (_ & V & _).
+    intros Hf Hw Hnp Hk He Hg Hrv Hsw.
+    destruct (frame_all u fuel e Hf o (restrict o K) Hw (wf_restrict o K Hw) Hnp (no_par_restrict o K Hnp) Hsw) as (_ & V & _).
     apply V. rewrite He. cbn [snd]. now apply agree_restrict.
   Qed.
 
   (** ** C01: equal fingerprints, equal outcomes (no stale hit) *)
   Theorem same_fingerprint_same_outcome e o o' K lk lk' rv lv rv' lv' :
-    frag e = true -> wf_dict o = true -> wf_dict o' = true ->
+    frag e = true -> wf_dict o = true -> wf_dict o' = true -> no_par o = true -> no_par o' = true ->
     keysN e o tt = (Ok K, tt, lk) -> keysN e o' tt = (Ok K, tt, lk') ->
     evalN e o tt = (rv, tt, lv) -> evalN e o' tt = (rv', tt, lv') ->
     good_keys K -> all_present K o ->
@@ -85,17 +85,17 @@ Section Sufficient.
     effects_opt_off o' = effects_opt_off o ->
     rv' = rv.
   Proof.
-    intros Hf Hw Hw' Hk Hk' He He' Hg Hp Hsame Hrv Hrk Hrv' Hrk' Hs1 Hs2 Hs3.
+    intros Hf Hw Hw' Hnp Hnp' Hk Hk' He He' Hg Hp Hsame Hrv Hrk Hrv' Hrk' Hs1 Hs2 Hs3.
     assert (Hp' : all_present K o').
     { intros k Hin. destruct (Hp k Hin) as [v Hv]. exists v. now rewrite (Hsame k Hin). }
-    destruct (keys_sufficient e o K lk rv lv Hf Hw Hk He Hg Hrv Hrk Hs1) as [E1 _].
-    destruct (keys_sufficient e o' K lk' rv' lv' Hf Hw' Hk' He' Hg Hrv' Hrk' Hs2) as [E2 _].
+    destruct (keys_sufficient e o K lk rv lv Hf Hw Hnp Hk He Hg Hrv Hrk Hs1) as [E1 _].
+    destruct (keys_sufficient e o' K lk' rv' lv' Hf Hw' Hnp' Hk' He' Hg Hrv' Hrk' Hs2) as [E2 _].
     set (R := restrict o K) in *. set (R' := restrict o' K) in *.
     assert (Hrep : reported_ok o K) by now apply reported_ok_of.
     assert (Hrep' : reported_ok o' K) by now apply reported_ok_of.
     (* the two restricted dictionaries answer every lookup of the run alike *)
     assert (HsR : effects_opt_off R' = effects_opt_off R) by congruence.
-    destruct (frame_all u fuel e Hf R R' (wf_restrict o K Hw) (wf_restrict o' K Hw') HsR) as (E3 & _ & _).
+    destruct (frame_all u fuel e Hf R R' (wf_restrict o K Hw) (wf_restrict o' K Hw') (no_par_restrict o K Hnp) (no_par_restrict o' K Hnp') HsR) as (E3 & _ & _).
     assert (Hag : agree_keys R R' (reads_of (snd (evalN e R tt)))).
     { assert (Hreads : reads_of (snd (evalN e R tt)) = reads_of lv).
       { unfold obs in E1. rewrite He in E1. cbn [fst snd] in E1.
